@@ -56,6 +56,12 @@ def run_case(ctx, case):
     for i, op in enumerate(hist[1:], 1):
         outcome, value = ops.execute(world, cur, op)
         ctx.count(f"{outcome}:{op['t']}")
+        carries_value = op["t"] != "call" or op["a"] or any(not k.startswith("_") for k in op["k"])  # (with_x() asks for a fresh default-built value)
+        if op.get("bad") and carries_value and outcome == "raise" and not isinstance(value, (TypeError, ValueError, LookupError, grammar.Injected)):
+            # "An operation that would establish a non-conforming value raises TypeError or ValueError": an ill-typed argument must
+            # not surface as some other error from deeper inside (LookupError: a missing index / key may be reported first)
+            ctx.fail(f"{op_route(world, op)}|wrong_exception:{type(value).__name__}", case, f"step {i} {op} (ill-typed argument) raised {value!r}, neither TypeError nor ValueError")
+            return
         if op.get("bad") == "elem":
             saw_elem_bad = True
             ctx.count(f"bad_elem:{outcome}")
